@@ -5,7 +5,8 @@
    regenerated from pyrtl/passes.py on every run, so the theorems below are
    re-checked against the current source. *)
 From PyRTL Require Import Netlist.Sem Netlist.WFDefs Gen.ConstFold Pass.Opt Pass.OptCheck
-  Pass.OptFoldProofs Pass.OptProofs Pass.OptDeadProofs.
+  Pass.OptFoldProofs Pass.OptProofs Pass.OptDeadProofs Pass.OptAliasProofs Pass.OptRemoveProofs.
+From PyRTL Require Import Sim.SimModel Sim.SimCorrect.
 
 (* ---- (T) the folding tables agree with the reference op table wherever
         _constant_prop_pass applies them ---------------------------------------- *)
@@ -152,6 +153,52 @@ Theorem C04_remove_unlistened_preserves_partial :
 Proof. exact remove_unlistened_preserves. Qed.
 Print Assumptions C04_remove_unlistened_preserves_partial.
 
+(* _remove_wire_nets / _remove_slice_nets (model): every wire that is not the
+   destination of a removed net has the same value on every cycle of every legal
+   input sequence from every legal state -- in particular every Output (removed
+   nets never drive Outputs).  wire_removal_ok / slice_removal_ok are decidable
+   premises (the producer map resolves every removed destination to a surviving
+   wire of the same width; removed nets have one argument as wide as their
+   destination; selects obey sanity_check's index rules); the harness evaluates
+   them on every sampled design. *)
+Theorem C04_remove_wire_nets_preserves_partial :
+  forall nl dflt, wfb nl = true -> wire_removal_ok nl = true ->
+  forall inss st st', st_eq st st' -> Forall (legal_ins nl) inss -> legal_regs nl (sregs st) ->
+  Forall2 (fun v v' => forall w, In w (rdy_final nl) -> ~ In w (alias_dead nl is_w_net) -> v w = v' w)
+          (fst (run nl dflt st inss)) (fst (run (remove_wire_nets nl) dflt st' inss)).
+Proof. exact remove_wire_nets_preserves. Qed.
+Print Assumptions C04_remove_wire_nets_preserves_partial.
+
+Theorem C04_remove_slice_nets_preserves_partial :
+  forall nl dflt, wfb nl = true -> slice_removal_ok nl = true ->
+  forall inss st st', st_eq st st' -> Forall (legal_ins nl) inss -> legal_regs nl (sregs st) ->
+  Forall2 (fun v v' => forall w, In w (rdy_final nl) -> ~ In w (alias_dead nl (is_full_slice nl)) -> v w = v' w)
+          (fst (run nl dflt st inss)) (fst (run (remove_slice_nets nl) dflt st' inss)).
+Proof. exact remove_slice_nets_preserves. Qed.
+Print Assumptions C04_remove_slice_nets_preserves_partial.
+
+(* the general simulation behind both: any set of identity nets may be removed
+   with their readers redirected through any map rho that sends a removed
+   destination where its source goes *)
+Theorem C04_alias_removal_sound :
+  forall nl sel rho dflt, wfb nl = true ->
+  (forall n, In n (nets nl) -> gone nl sel n = true ->
+     is_comb (nop n) = true /\ In (arg n 0) (nargs n)
+     /\ width_of nl (ndest n) = width_of nl (arg n 0)
+     /\ forall st v, inrange (v (arg n 0)) (width_of nl (arg n 0)) ->
+          exec_spec nl st v n = upd v (ndest n) (v (arg n 0))) ->
+  (forall n, In n (nets nl) -> gone nl sel n = true -> rho (ndest n) = rho (arg n 0)) ->
+  (forall w, In w (rdy_final nl) -> ~ In w (dead_list nl sel) -> rho w = w) ->
+  (forall w, In w (rdy_final nl) -> width_of nl (rho w) = width_of nl w) ->
+  (forall w, In w (rdy_final nl) -> ~ In (rho w) (dead_list nl sel)) ->
+  (forall w, In w (rdy0 nl) -> ~ In w (dead_list nl sel)) ->
+  (forall n, In n (nets nl) -> gone nl sel n = false -> op_has_dest (nop n) = true ->
+     ~ In (ndest n) (dead_list nl sel)) ->
+  forall inss st st', st_eq st st' -> Forall (legal_ins nl) inss -> legal_regs nl (sregs st) ->
+  Forall2 (sim_val nl rho) (fst (run nl dflt st inss)) (fst (run (nl' nl sel rho) dflt st' inss)).
+Proof. exact alias_run. Qed.
+Print Assumptions C04_alias_removal_sound.
+
 (* ---- the full per-pass statement (NOT proved for the rewriting passes: their
         local rewrite rules are the theorems above; the composition into a
         whole-netlist simulation is tied structurally + behaviourally on every
@@ -215,7 +262,11 @@ Definition ex_nl : netlist :=
                mkNet (OpSelect [0; 1]) [19] 20; mkNet OpW [20] 21; mkNet OpReg [12] 11 ];
      mems := [] |}.
 
-Example C04_example_wf : wfb ex_nl = true /\ api_built ex_nl = true /\ unlistened_ok ex_nl = true.
+Example C04_example_wf :
+  wfb ex_nl = true /\ api_built ex_nl = true /\ unlistened_ok ex_nl = true
+  /\ wire_removal_ok ex_nl = true /\ slice_removal_ok (remove_wire_nets ex_nl) = true
+  /\ length (nets (remove_wire_nets ex_nl)) = 16%nat
+  /\ length (nets (remove_slice_nets (remove_wire_nets ex_nl))) = 15%nat.
 Proof. vm_compute. repeat split; reflexivity. Qed.
 
 (* a & b / b & a share a key; a - b / b - a do not *)
